@@ -375,6 +375,77 @@ func Run(r *ev.Run) {
 		}
 	}
 
+	// ---- 3c. the specs returned by ParseConfigList are independent values: appending to one's CipherSuites PublicName or PublicKey
+	// leaves the others as parsed (whether the specs alias the INPUT bytes is not the property's business) ----
+	{
+		list, _ := ech.ConfigList([]ech.Config{mk(1, "a.example", sl[0]), mk(2, "b.example", sl[5]), mk(3, "c.example", sl[0])})
+		specs, err := ech.ParseConfigList(list)
+		if err != nil || len(specs) != 3 {
+			r.Violation("list-parse:3", fmt.Sprintf("ParseConfigList: %v", err), nil)
+		} else {
+			before := []string{fmt.Sprintf("%+v", specs[0]), fmt.Sprintf("%+v", specs[1]), fmt.Sprintf("%+v", specs[2])}
+			for i := range specs {
+				specs[i].CipherSuites = append(specs[i].CipherSuites, ech.CipherSuite{KDF: 0x7777, AEAD: 0x7777})
+				specs[i].PublicName = append(specs[i].PublicName, 'x')
+				specs[i].PublicKey = append(specs[i].PublicKey, 0xff)
+				for j := i + 1; j < len(specs); j++ {
+					if got := fmt.Sprintf("%+v", specs[j]); got != before[j] {
+						r.Violation("parsed-specs-share-memory", fmt.Sprintf("after appending a suite to / editing spec %d of a parsed list, spec %d reads %s (was %s)", i, j, got, before[j]), nil)
+					}
+				}
+			}
+		}
+		r.Eval("spec-independence", "ok-list")
+	}
+	// ---- 3d. a list whose BODY is exactly 0xfe0d = 65037 bytes long (its first two bytes equal the version magic), and neighbours
+	{
+		big := mk(7, dnsName(255), sl[len(sl)-1])
+		for _, target := range []int{65036, 65037, 65038} {
+			var cfgs []ech.Config
+			body := 0
+			for body+len(big) <= target-60 {
+				cfgs = append(cfgs, big)
+				body += len(big)
+			}
+			// fill the rest exactly with one config whose name length is chosen accordingly (config = 70 + name with suite list sl[0])
+			found := false
+			for nl := 1; nl <= 255 && !found; nl++ {
+				for k := 1; k <= 3 && !found; k++ {
+					var tail []ech.Config
+					for t := 0; t < k; t++ {
+						tail = append(tail, mk(9, dnsName(min(255, nl+t)), sl[0]))
+					}
+					n := 0
+					for _, c := range tail {
+						n += len(c)
+					}
+					if body+n == target {
+						cfgs = append(cfgs, tail...)
+						found = true
+					}
+				}
+			}
+			if !found {
+				continue
+			}
+			guard(r, fmt.Sprint("list-body:", target), target, func() {
+				got, err := ech.ConfigList(cfgs)
+				if err != nil || len(got) != target+2 {
+					r.Violation("list-bytes:body-size", fmt.Sprintf("ConfigList for a %d-byte body: %d bytes, %v", target, len(got), err), target)
+					return
+				}
+				specs, err := ech.ParseConfigList(got)
+				if _, rerr := tlsref.ParseConfigList(got); rerr != nil {
+					ev.ToolError("c11: reference parser rejects the %d-byte list: %v", target, rerr)
+				}
+				if err != nil || len(specs) != len(cfgs) {
+					r.Violation(fmt.Sprintf("list-parse:body-%#x", target), fmt.Sprintf("a well-formed list whose body is %d (%#x) bytes long does not parse back: %v, %d of %d configs", target, target, err, len(specs), len(cfgs)), target)
+				}
+				r.Eval(fmt.Sprint("listbody", target), "ok-list")
+			})
+		}
+	}
+
 	// ---- 4. parser robustness: truncations, substitutions, garbage ----
 	list3, _ := ech.ConfigList(poolCfg[:3])
 	var parserInputs int64
@@ -402,6 +473,12 @@ func Run(r *ev.Run) {
 		parse(fmt.Sprintf("prefix%d", n), list3[:n], true)
 	}
 	parse("whole", list3, false)
+	// 1..3 stray bytes at the end of the list BODY, with the list's own length prefix saying so (a config header needs 4)
+	for n := 1; n <= 3; n++ {
+		l := append(append([]byte{}, list3...), bytes.Repeat([]byte{0xfe}, n)...)
+		l[0], l[1] = byte((len(l)-2)>>8), byte(len(l)-2)
+		parse(fmt.Sprintf("stray-bytes-in-body-%d", n), l, true)
+	}
 	parse("garbage-after", append(append([]byte{}, list3...), 0xaa), false) // tolerated or not: not fixed by the property; only no panic
 	// single config, every strict prefix through Config.Spec
 	one := poolCfg[1]
